@@ -3,26 +3,21 @@ EXTENDS HxServer, TLC
 CONSTANTS N,      \* small universe: every store over 1..N
           BigMode \* TRUE: palette of stores over 1..700 (the 512 cap is real)
 
-\* runs of a set of small heights
-IsLo(S, h) == h \in S /\ (h - 1) \notin S
-HiOf(S, l) == CHOOSE h \in S : h >= l /\ (\A x \in l..h : x \in S) /\ (h + 1) \notin S
-RunsOfSet(S) == {<<l, HiOf(S, l)>> : l \in {h \in S : IsLo(S, h)}}
-
 SmallStores == {RunsOfSet(S) : S \in SUBSET (1..N)}
 BigStores == { {<<1, 700>>}, {<<1, 511>>, <<513, 700>>}, {<<3, 514>>}, {<<2, 514>>, <<600, 650>>},
                {<<100, 612>>, <<614, 700>>}, {<<189, 700>>}, {} }
 
 MCStores  == IF BigMode THEN BigStores ELSE SmallStores
-MCOrigins == IF BigMode
+MCOrigins == IF HistMode THEN 0..(N + 1) ELSE IF BigMode
              THEN {0, 1, 2, 3, 100, 101, 188, 189, 190, 512, 513, 514, 515, 600, 613, 650, 651, 699, 700, 701,
                    M \div 2 - 1, M \div 2, M - 513, M - 512, M - 5, M - 2, M - 1, M}
              ELSE (0..(N + 2)) \cup {M \div 2 - 1, M \div 2, M - 2, M - 1, M}
-MCAmounts == IF BigMode
+MCAmounts == IF HistMode THEN {1, 2, 3, N + 2} ELSE IF BigMode
              THEN {0, 1, 2, 5, 100, 511, 512, 513, 600, 700, 1000, M \div 2, M - 1, M}
              ELSE (0..(N + 2)) \cup {511, 512, 513, M \div 2, M - 1, M}
-MCHashTargets == IF BigMode THEN {1, 2, 189, 512, 700, 701} ELSE 1..(N + 1)
-MCHashLens    == {0, 31, 32, 33}
-MCSmallAmounts == {0, 1, 2, M}
+MCHashTargets == IF HistMode THEN 1..N ELSE IF BigMode THEN {1, 2, 189, 512, 700, 701} ELSE 1..(N + 1)
+MCHashLens    == IF HistMode THEN {32} ELSE {0, 31, 32, 33}
+MCSmallAmounts == IF HistMode THEN {1} ELSE {0, 1, 2, M}
 
-View == <<store, req>>
+View == <<store, req, ph>>
 =============================================================================
